@@ -256,6 +256,63 @@ TIME_UNITS = [("hours", PeriodUnits.HOURS, 3600 * 10 ** 9), ("minutes", PeriodUn
               ("ticks", PeriodUnits.TICKS, 100), ("nanoseconds", PeriodUnits.NANOSECONDS, 1)]
 
 
+LDT_UNITS = {
+    "days": (PeriodUnits.DAYS, [("days", NPD)]),
+    "weeks": (PeriodUnits.WEEKS, [("weeks", 7 * NPD)]),
+    "weeks+days": (PeriodUnits.WEEKS | PeriodUnits.DAYS, [("weeks", 7 * NPD), ("days", NPD)]),
+    "days+nanoseconds": (PeriodUnits.DAYS | PeriodUnits.NANOSECONDS, [("days", NPD), ("nanoseconds", 1)]),
+    "days+hours+minutes": (PeriodUnits.DAYS | PeriodUnits.HOURS | PeriodUnits.MINUTES, [("days", NPD), ("hours", 3600 * 10 ** 9), ("minutes", 60 * 10 ** 9)]),
+    "weeks+seconds": (PeriodUnits.WEEKS | PeriodUnits.SECONDS, [("weeks", 7 * NPD), ("seconds", 10 ** 9)]),
+    "hours": (PeriodUnits.HOURS, [("hours", 3600 * 10 ** 9)]),
+    "ticks": (PeriodUnits.TICKS, [("ticks", 100)]),
+}
+
+
+@lemma({"d1": int, "n1": int, "d2": int, "n2": int}, params=[[u, sg] for u in LDT_UNITS for sg in ("fwd", "bwd", "same-time")], budget=120, per_path=40,
+       bounds="Period.between(LocalDateTime, LocalDateTime, units) on the DayCalendar (dates = day numbers, so only the fixed-length units: "
+              "weeks, days and the time units; 8 unit sets incl. single-unit fast paths), every pair of date-times up to +-400 days "
+              "apart, partitioned into end after start / end before start / EQUAL times of day (both directions): each component is "
+              "the truncated quotient of what the coarser units left, all of one sign, start + period lies between start and end and "
+              "the finest unit's remainder is smaller than that unit")
+def between_datetimes(PS):
+    from props import daycal
+    from pyoda_time import LocalDateTime
+    uname, sg = PS
+    units, comps = LDT_UNITS[uname]
+    host = daycal.host("Coptic")
+    daycal.install_plus_days_contract()
+
+    def h(d1, n1, d2, n2):
+        assume(host._min_days + 10 <= d1 <= host._max_days - 10)
+        assume(-400 <= d2 - d1 <= 400)
+        assume(0 <= n1 < NPD)
+        assume(0 <= n2 < NPD)
+        diff = (d2 - d1) * NPD + n2 - n1
+        if sg == "same-time":
+            assume(n1 == n2)
+            assume(d1 != d2)
+        else:
+            assume(n1 != n2)
+            assume((diff > 0) == (sg == "fwd"))
+        s = LocalDateTime._ctor(local_date=daycal.date(host, d1), local_time=LocalTime._ctor(nanoseconds=n1))
+        e = LocalDateTime._ctor(local_date=daycal.date(host, d2), local_time=LocalTime._ctor(nanoseconds=n2))
+        p = Period.between(s, e, units)
+        rest = diff
+        ok = True
+        for nm, size in comps:
+            v = getattr(p, nm)
+            # v == trunc(rest / size), stated without division
+            r = rest - v * size
+            ok = ok and (0 <= r < size if diff >= 0 else -size < r <= 0) and (v == 0 or (v > 0) == (diff > 0))
+            rest = r
+        named = {nm for nm, _ in comps}
+        for nm in ("years", "months", "weeks", "days", "hours", "minutes", "seconds", "milliseconds", "ticks", "nanoseconds"):
+            if nm not in named:
+                ok = ok and getattr(p, nm) == 0
+        return ok
+    return h
+
+
 @lemma({"a": int, "b": int}, params=list(range(1, 64)), budget=60,
        bounds="every pair of times of day x one of the 63 non-empty subsets of the six time units (subset = parameter)")
 def between_times(P):
